@@ -8,12 +8,12 @@ VERIF = os.path.dirname(os.path.dirname(os.path.abspath(__file__)))
 props = [json.loads(l) for l in open(os.path.join(VERIF, "properties.jsonl"))]
 
 CLAIMED = {
-    "C01": ("exploration", "differential monitor: real container vs std::vector model over random histories + canonical-state sweep, ASan/UBSan builds",
-            "Holds on the histories explored (about 1.3M ops quick, far more thorough) for the sampled element flavours, allocator configurations and N pairs; not a proof for all histories/types.",
+    "C01": ("exploration", "differential monitor: real container vs std::vector model over random histories + canonical-state sweep + iterator-algebra monitor, ASan/UBSan builds; thorough adds coverage-guided (libFuzzer) histories and valgrind memcheck",
+            "Holds on the histories explored (about 2M ops quick; thorough ~70M ops incl. 2.4M coverage-guided histories) for the sampled element flavours (incl. over-aligned), allocator configurations (incl. fancy pointers, 16-bit size_type) and N pairs; not a proof for all histories/types.",
             "std::vector<int> is the reference; g++ 12 / clang 14 with ASan+UBSan; element types are the Tracked flavours and int", "3 C01"),
     "C02": ("exploration", "invariant probe at every quiescent point (after ops, after injected throws, on moved-from sources), ledger-backed, ASan/UBSan",
             "The probe is a pure function of public observers, the object's address range and the allocation ledger; it ran after every op of every history / sweep case / fault run explored.",
-            "allocation ledger and arena canaries are trusted; run-time only", "3 C02"),
+            "allocation ledger and arena canaries are trusted; run-time only; data() alignment is part of the probe (over-aligned flavour)", "3 C02"),
     "C03": ("exploration", "online element-lifetime registry (object identity by address) + quiescent live-set check, ASan for trivial types",
             "Every construct/assign/destroy/read of an element is checked at the event; the live set is compared with the containers after every op and after every injected throw.",
             "instrumented element types report truthfully; int elements rely on ASan", "3 C03"),
@@ -41,7 +41,7 @@ CLAIMED = {
     "C11": ("exploration", "exhaustive small-scope aliasing enumeration (every i, every pos, boundary counts, every canonical state) against a copy-first model; registry + ASan watch the call",
             "Exhaustive over the stated small scope for int and three Tracked flavours; random aliasing-heavy histories on top.",
             "model = std::vector with the argument copied first", "3 C11"),
-    "C12": ("exploration", "expected outcome computed in 64-bit arithmetic vs observed (length_error / exact contents); allocator flags allocate(n>max_size()); ledger red zones + ASan; exhaustive for 8-bit size_type",
+    "C12": ("exploration", "expected outcome computed in 64-bit arithmetic vs observed (length_error / exact contents); allocator flags allocate(n>max_size()); ledger red zones + ASan; exhaustive for 8-bit size_type; wrap monitor: clang unsigned-integer-overflow/implicit-conversion checks restricted to the header, routed through __ubsan_on_report to the running operation",
             "Exhaustive for the uint8_t configurations (every size, count, range length 0..300); boundary sampling for 16/32/64-bit; assert and NDEBUG builds.",
             "memory-free counting iterators stand in for huge ranges; 64-bit limits reached through a max_size() cap", "3 C12"),
     "C13": ("exploration", "twin replay (int / trivially copyable / non-trivial struct traces must be identical), conversion matrix against static_cast<To>, compile-acceptance probes of minimal-requirement archetypes (trivial variant vs non-trivial twin), ASan + ledger red zones",
@@ -102,7 +102,7 @@ manifest = {
     },
     "engines": [
         {"name": "svmon", "path": "bin/check.py", "serves_properties": [c["property_id"] for c in checks],
-         "kind_free_text": "runtime monitoring harness: C++ monitor library (harness/include/svmon) compiled against /repo's header under ASan+UBSan / plain builds, engines hist (histories, sweep, fault enumeration), limits, growth, cmp, traits, layout probes, gdb monitor; python driver with content-addressed build cache"},
+         "kind_free_text": "runtime monitoring harness: C++ monitor library (harness/include/svmon) compiled against /repo's header under ASan+UBSan / plain / libFuzzer / UBSan-wrap builds, engines hist (histories, sweep, fault enumeration, coverage-guided driver), limits, growth, cmp, traits, conv, xstd, layout probes, gdb monitor; python driver with content-addressed build cache"},
     ],
     "checks": checks,
     "not_applicable": na,
